@@ -7,8 +7,9 @@ LEVEL_TEXT = ("Coq theorems over every history (command lines, parsed or raw byt
               "every reply (structure, numbers, ids, bodies byte for byte) and the store afterwards; the extracted specification "
               "(oracle) is evaluated on what the implementation answered.")
 LEVEL_NOTE = ("The theorems are about the model; the model/code tie is sampled (differential testing). Modelled, not verified: the two "
-              "stores (GetMessages order, RemoveMessage, Source availability), TLS (STLS answers -ERR: TLS is not configured in the "
-              "harness), timeouts (deadlines are ignored by the scripted connection), true concurrency inside one command "
+              "stores (GetMessages order, RemoveMessage, Source availability), STLS / CAPA as a layer around the session model (Model/Pop3Tls.v; kind tls drives a real handshake; "
+              "ForceTLS is in the model but not driven; an STLS arriving while writes already fail is treated as an ordinary lost-reply step), "
+              "timeouts (a read times out exactly where the scripted connection pauses; no clocks), true concurrency inside one command "
               "(external store changes happen between commands); a read error in the middle of streaming a message. What RETR/TOP normalise is stated exactly by pop3_norm_pieces (every LF-separated piece comes back with exactly one CR before its LF: 'a LF' -> 'a CR LF', 'a CR LF' and 'a CR CR LF' unchanged, an unterminated last piece is terminated); pop3_norm_only_line_endings alone compares the non-CR/LF bytes and cannot see a moved CR.")
 TECHNIQUE = "machine-checked proof in Coq + model/code correspondence check"
 DESIGN_REF = "DESIGN.md §4 C13, Appendix C.2"
@@ -21,8 +22,9 @@ RULE = ("sess: generated POP3 dialogues (0-8 messages, hostile message sources i
 TRUSTED = ["command words are compared after Go's strings.ToUpper: modelled for ASCII plus U+0131/U+017F (the only runes whose upper case is ASCII)",
            "the store abstraction of Model/Pop3.v is proved to be C07's StoreSpec read through abs (pop3_over_storespec, storespec_*: for every cap and size limit of StoreSpec), and StoreSpec is what C07 proves the store models refine (pop3_over_store_models: the memory-store model for every cap and size limit, the file-store model only without a size limit, c_max = 0, and under C07's environment hypothesis file_fresh); what stays modelled rather than proved is the one difference between the back-ends that StoreSpec does not speak about: Source() of a message object whose message has been removed fails on the file store and still succeeds on the mem store (sampled by the correspondence run)"]
 ASSUMPTIONS = ["the harness's scripted net.Conn hands the server one line per Read and never blocks writes; deadlines are not exercised",
-               "TLS disabled (config.POP3.TLSEnabled=false, ForceTLS=false)"]
-NOT_PROVED = ["behaviour under true concurrency inside one command (a store change while RETR is streaming): not modelled (searched by the -race stress stream)",
+               "kinds sess/bytes/net/stress run with TLS disabled (TLSEnabled=false); kind tls with TLSEnabled=true|false, ForceTLS=false, a self-signed certificate made at run time"]
+NOT_PROVED = ["observations about the code, outside the letter of C13 (modelled as coded, proved of the model, seen on the real server by kind tls): Server.tlsState is server-level - after one client upgraded (stls_at_most_once, upgrade_is_for_good) or merely failed its handshake (failed_handshake) no other connection of that server is offered or granted STLS; an accepted STLS keeps state and user name (stls_keeps_session); plaintext pipelined behind STLS in the same segment is dropped (pipelined_behind_stls_dropped)",
+              "behaviour under true concurrency inside one command (a store change while RETR is streaming): not modelled (searched by the -race stress stream)",
               "read error while a message is being streamed (handler.go sendMessage/sendMessageTop: scanner.Err() != nil => '.' then '-ERR ...'): not modelled; only the failure of msg.Source() is (BFail). Unreachable with the two stores unless the file is truncated while it is read",
               "line-ending normalisation is exact per hop (pop3_norm_pieces: at most the one CR directly before an LF is read as part of the line ending), but over the two hops SMTP DATA -> POP3 RETR a body line 'a CR CR LF' arrives as 'a CR LF' (Example two_hop_cr_loss): a lost CR that is not strictly a line ending"]
 
